@@ -115,6 +115,19 @@ func (c *c20) Run(cs core.Case) core.Result {
 		}
 		return filepath.Join(setDir, rel)
 	}
+	// archive files may be called anything: a third of the cases carry a '%'
+	// in the base name (renamed after Create; the names are not stored inside)
+	base := "a"
+	if (p.Seed>>9)%3 == 0 {
+		base = []string{"a 100%", "my%20set", "%d%s%v"}[(p.Seed>>12)%3]
+		ents, _ := os.ReadDir(setDir)
+		for _, e := range ents {
+			if strings.HasPrefix(e.Name(), "a.") {
+				os.Rename(filepath.Join(setDir, e.Name()), filepath.Join(setDir, base+e.Name()[1:]))
+			}
+		}
+		w.idxName = base + w.idxName[1:]
+	}
 	idx := spell(w.idxName)
 	dataPath := func(i int) string { return filepath.Join(setDir, w.dataRel[i]) }
 	flip := func(i int) {
@@ -129,7 +142,7 @@ func (c *c20) Run(cs core.Case) core.Result {
 	removeVolumes := func() {
 		ents, _ := os.ReadDir(setDir)
 		for _, e := range ents {
-			if strings.HasPrefix(e.Name(), "a.") && e.Name() != w.idxName {
+			if strings.HasPrefix(e.Name(), base+".") && e.Name() != w.idxName {
 				os.Remove(filepath.Join(setDir, e.Name()))
 			}
 		}
@@ -187,9 +200,9 @@ func (c *c20) Run(cs core.Case) core.Result {
 		}
 	case "parity-gap":
 		// the FIRST recovery file is gone, a later one survives; data intact
-		first := "a.vol00+01.par2"
+		first := base + ".vol00+01.par2"
 		if p.Fmt == "par1" {
-			first = "a.p01"
+			first = base + ".p01"
 		}
 		os.Remove(filepath.Join(setDir, first))
 		expect(vw, verify(), "0")
